@@ -18,7 +18,10 @@ RULE = (
     "PrivateRoomGrant/RevokeMembership, PrivateRoomMembershipGranted/Revoked, PrivateRoomGrant/RevokeOperator, "
     "PrivateRoomOperatorGranted/Revoked, RoomTickers, RoomTickerAdded/Removed, GetUserStatus, GetUserStats, "
     "AddUser reply (exists / not), AddPrivilegedUser, PrivilegedUsers, CheckPrivileges, RoomChatMessage, "
-    "PublicChatMessage, PrivateChatMessage. Every stats carrier (JoinRoom user data, UserJoinedRoom, GetUserStats, "
+    "PublicChatMessage, PrivateChatMessage; plus run-time changes of settings.users.blocked between messages "
+    "(in-place set / change of flags / delete as USAGE.rst documents, and assignment of a whole new dict), so that a "
+    "sender is blocked / unblocked for a kind AFTER messages of that sender and kind were already filtered; the "
+    "oracle uses the block list as it is when the message is processed. Every stats carrier (JoinRoom user data, UserJoinedRoom, GetUserStats, "
     "AddUser) draws each of the four counters from {0 (weight 1/3), two small values, a medium one, one near the "
     "uint32 limit}, so a counter first reported as 0 and a counter dropping to 0 for a known user are common. "
     "Each is sent as a real frame by the simulated server to ONE real logged-in SoulSeekClient (virtual loop, "
@@ -52,6 +55,8 @@ ASSUMPTIONS = [
     "keeps UserManager.privileged_users for exactly that purpose",
     "status/stats/slots/country of users that are not referenced are not compared (objects are weakly held); they "
     "are re-announced by the join message that makes the user referenced",
+    "settings.users.blocked may be changed while the client runs, in place or by assignment (USAGE.rst: 'changes to "
+    "this list will automatically be picked up'); the change is effective for the next message (5 ms later)",
     "statistics fold: the last announced value of each counter wins, 0 included (0 files / 0 uploads are real "
     "values; `None` only means never announced); an unsolicited AddUser reply is folded like the solicited one "
     "(status, stats, country when the user exists; nothing otherwise) and emits no public Room*/User* event",
@@ -73,9 +78,14 @@ ROOM_OPS = ['leave', 'member_granted', 'member_revoked', 'op_granted', 'op_revok
 ROOM_USER_OPS = ['user_left', 'grant_member', 'revoke_member', 'grant_op', 'revoke_op', 'ticker_removed']
 ROOM_USERS_OPS = ['members', 'operators']
 CHAT_ROOM_OPS = ['room_msg', 'public_msg']
+CHAT_OPS = CHAT_ROOM_OPS + ['private_msg']
+# not server messages: the application changes settings.users.blocked while the client runs (USAGE.rst "Blocking
+# Users": in place; also by assigning a whole new dict)
+BLOCK_OPS = ['block_set', 'block_del', 'block_assign']
+FLAG_CHOICES = [0, F_PRIVATE, F_PRIVATE, F_ROOM, F_ROOM, 3, 4, 60, 63]
 OPS = (['room_list', 'join', 'user_joined', 'tickers', 'ticker_added', 'status', 'stats', 'add_user', 'add_priv',
         'priv_users',
-        'check_priv', 'private_msg'] + ROOM_OPS + ROOM_USER_OPS + ROOM_USERS_OPS + CHAT_ROOM_OPS)
+        'check_priv', 'private_msg'] + ROOM_OPS + ROOM_USER_OPS + ROOM_USERS_OPS + CHAT_ROOM_OPS + BLOCK_OPS)
 
 EVENT_CLASSES = [
     'RoomListEvent', 'RoomMessageEvent', 'PublicMessageEvent', 'PrivateMessageEvent', 'RoomTickersEvent',
@@ -148,6 +158,12 @@ def _op(draw, kind, room_bias, user_bias=None):
                 's': draw(_stat), 'c': draw(st.integers(0, 2))}
     if kind == 'add_priv':
         return {'op': kind, 'u': draw(_user)}
+    if kind == 'block_set':
+        return {'op': kind, 'u': draw(_user), 'f': draw(st.sampled_from(FLAG_CHOICES))}
+    if kind == 'block_del':
+        return {'op': kind, 'u': draw(_user)}
+    if kind == 'block_assign':
+        return {'op': kind, 'fs': [draw(st.sampled_from([0] + FLAG_CHOICES)) for _ in USERS]}
     if kind == 'priv_users':
         return {'op': kind, 'us': draw(_users)}
     return {'op': 'check_priv', 'n': draw(st.integers(0, 5))}
@@ -160,15 +176,21 @@ ROLES = ['members', 'operators', 'grant_member', 'revoke_member', 'member_grante
          'revoke_op', 'op_granted', 'op_revoked', 'room_list', 'join']
 
 
+# chat of every kind interleaved with run-time changes of the block list (weighted towards messages)
+BLOCKING = CHAT_OPS + CHAT_OPS + ['block_set', 'block_set', 'block_del', 'block_assign']
+
+
 @st.composite
 def case_strategy(draw):
-    mode = draw(st.integers(0, 5))
+    mode = draw(st.integers(0, 6))
     if mode == 0:
         kinds = list(OPS)
     elif mode == 4:
         kinds = LIFECYCLE       # users becoming referenced / unreferenced around status and privilege updates
     elif mode == 5:
         kinds = ROLES           # private-room roles: grant / revoke / list compositions
+    elif mode == 6:
+        kinds = BLOCKING        # block / change flags / unblock after the sender's messages were already filtered
     else:
         kinds = draw(st.lists(st.sampled_from(OPS), min_size=2, max_size=7, unique=True))
         if draw(st.integers(0, 2)) > 0:
@@ -276,6 +298,13 @@ def _sanitise(case):
             o['us'] = _ilist(d.get('us'), 3)
         elif k == 'check_priv':
             o['n'] = _i(d.get('n'), 100000)
+        elif k == 'block_set':
+            o['u'], o['f'] = _i(d.get('u'), 3), _i(d.get('f'), 64)
+        elif k == 'block_del':
+            o['u'] = _i(d.get('u'), 3)
+        elif k == 'block_assign':
+            fs = d.get('fs') if isinstance(d.get('fs'), list) else []
+            o['fs'] = [_i(fs[j] if j < len(fs) else 0, 64) for j in range(3)]
         ops.append(o)
     return blocked, ops
 
@@ -549,6 +578,16 @@ class Replica:
         elif k == 'check_priv':
             self.time_left = o['n']
             ev.append(('PrivilegesUpdateEvent', None, None, o['n']))
+        elif k == 'block_set':
+            self.blocked[un] = o['f']
+            w(un, 'blocked')
+        elif k == 'block_del':
+            self.blocked[un] = 0
+            w(un, 'blocked')
+        elif k == 'block_assign':
+            self.blocked = dict(zip(USERS, o['fs']))
+            for n in USERS:
+                w(n, 'blocked')
         elif k == 'room_msg':
             self.room(rn)
             if not self.blocked[un] & F_ROOM:
@@ -651,6 +690,19 @@ class _LogProxy:
         return getattr(self._real, name)
 
 
+def _apply_block_op(settings, o):
+    """What an application does to (un)block a user while the client runs."""
+    from aioslsk.user.model import BlockingFlag
+    k = o['op']
+    if k == 'block_set':
+        settings.users.blocked[USERS[o['u']]] = BlockingFlag(o['f'])            # in place (add / change flags)
+    elif k == 'block_del':
+        if USERS[o['u']] in settings.users.blocked:
+            del settings.users.blocked[USERS[o['u']]]                           # in place (unblock)
+    else:
+        settings.users.blocked = {USERS[j]: BlockingFlag(f) for j, f in enumerate(o['fs']) if f}   # whole new dict
+
+
 def _observe(client):
     """-> ({room name: view}, {user name: [views]}, privileges_time_left) using fresh reads only."""
     rooms, users = {}, {}
@@ -706,6 +758,7 @@ def run_case(case) -> CaseResult:
             swallowed.clear()
             seen_users = set()
             alive_prev = {}
+            block_changed = False
             for step, o in enumerate(ops):
                 k = o['op']
                 if k == 'join':
@@ -715,17 +768,25 @@ def run_case(case) -> CaseResult:
                 before = {n: _room_view(replica.rooms.get(n)) for n in ROOMS}
                 expected, _ = replica.apply(o)
                 noop = all(before[n] == _room_view(replica.rooms.get(n)) for n in ROOMS)
-                world.server.send(_build(o))
+                block_now = dict(replica.blocked)      # the block list as it is when the message is processed
+                if k in BLOCK_OPS:
+                    _apply_block_op(settings, o)
+                    block_changed = True
+                else:
+                    world.server.send(_build(o))
                 await asyncio.sleep(0.005)
                 where = f'step {step} {o}'
+                # a filter that ignores run-time changes of the list is its own root cause
+                rt = ':block-list-changed-at-runtime' if (block_changed and k in CHAT_OPS) else ''
 
                 # ---- events ------------------------------------------------
                 got = rec.drain()
-                chat = k in ('room_msg', 'public_msg', 'private_msg')
+                chat = k in CHAT_OPS
                 if not expected:
                     if got and chat:
-                        violate(f'C19/event:blocked-sender-reported:{k}',
-                                f'{where}: sender blocked with flags {blocked[o["u"]]} but got {got}')
+                        violate(f'C19/event:blocked-sender-reported:{k}{rt}',
+                                f'{where}: sender blocked with flags {block_now[USERS[o["u"]]]} (block list now '
+                                f'{block_now}, at start {blocked}) but got {got}')
                     elif got:
                         violate(f'C19/event:unexpected:{k}:{got[0][0]}', f'{where}: expected no event, got {got}')
                 elif not got:
@@ -733,7 +794,8 @@ def run_case(case) -> CaseResult:
                                               'revoke_op', 'op_revoked', 'grant_member', 'member_granted',
                                               'grant_op', 'op_granted')
                     if not optional:
-                        violate(f'C19/event:missing:{k}', f'{where}: expected {expected}, got nothing')
+                        violate(f'C19/event:missing:{k}{rt}', f'{where}: expected {expected}, got nothing'
+                                + (f' (block list now {block_now}, at start {blocked})' if chat else ''))
                 else:
                     exp = expected[0]
                     if len(got) > 1:
@@ -818,8 +880,21 @@ def run_case(case) -> CaseResult:
     rep = Replica(blocked, {'status': 'ONLINE', 'stats': (None,) * 4, 'slots_free': None, 'country': None,
                             'privileged': False})
     zero_first = zero_after_nonzero = False
+    chat_labels = set()
+    filtered_once = set()       # (user, flag bit) for which a message was already let through / dropped
     for o in ops:
         prev = {n: rep.users[n]['stats'] for n in USERS}
+        if o['op'] in CHAT_OPS:
+            bit = F_PRIVATE if o['op'] == 'private_msg' else F_ROOM
+            un, kindname = USERS[o['u']], ('private' if bit == F_PRIVATE else 'room')
+            now, at_start = bool(rep.blocked[un] & bit), bool(blocked[o['u']] & bit)
+            chat_labels.add('chat-from-blocked-sender' if now else (
+                'chat-from-sender-blocked-for-other-kind' if rep.blocked[un] else 'chat-from-unblocked-sender'))
+            if now != at_start:
+                chat_labels.add(('blocked' if now else 'unblocked') + '-at-runtime-then-%s-message' % kindname)
+                if (un, bit) in filtered_once:
+                    chat_labels.add('block-state-flipped-after-earlier-message-of-same-user-and-kind')
+            filtered_once.add((un, bit))
         _, writes = rep.apply(o)
         for key in writes:
             writers.setdefault(key, set()).add(o['op'])
@@ -844,12 +919,8 @@ def run_case(case) -> CaseResult:
         res.label('join-reply-with-stale-users-present')
     if recreated[0]:
         res.label('user-object-recreated')
-    chat = [o for o in ops if o['op'] in ('room_msg', 'public_msg', 'private_msg')]
-    if any(blocked[o['u']] & (F_PRIVATE if o['op'] == 'private_msg' else F_ROOM) for o in chat):
-        res.label('chat-from-blocked-sender')
-    if any(blocked[o['u']] and not blocked[o['u']] & (F_PRIVATE if o['op'] == 'private_msg' else F_ROOM)
-           for o in chat):
-        res.label('chat-from-sender-blocked-for-other-kind')
+    for lab in sorted(chat_labels):
+        res.label(lab)
     if any(o['op'] in ('member_granted', 'member_revoked', 'op_granted', 'op_revoked') for o in ops):
         res.label('self-grant-or-revoke')
     if res.nontrivial:
@@ -864,6 +935,21 @@ def run_shard(ctx):
 
 # one deterministic case per genuine-defect kind found on the pinned tree (regressions once fixed)
 KNOWN_REPLAYS = {
+    # regression: the block list is consulted as it is when the message arrives (in-place add / change / delete and
+    # whole-dict assignment, room / public / private messages, after the sender was already filtered once)
+    'C19/event:block-list-changed-at-runtime': {
+        'blocked': [0, 0, 0], 'ops': [
+            {'op': 'room_msg', 'r': 0, 'u': 1, 't': 0},
+            {'op': 'block_set', 'u': 1, 'f': 2},
+            {'op': 'room_msg', 'r': 0, 'u': 1, 't': 1},
+            {'op': 'private_msg', 'u': 1, 't': 0, 'id': 1},
+            {'op': 'block_set', 'u': 1, 'f': 3},
+            {'op': 'private_msg', 'u': 1, 't': 1, 'id': 2},
+            {'op': 'block_del', 'u': 1},
+            {'op': 'room_msg', 'r': 0, 'u': 1, 't': 2},
+            {'op': 'private_msg', 'u': 1, 't': 2, 'id': 3},
+            {'op': 'block_assign', 'fs': [0, 2, 0]},
+            {'op': 'public_msg', 'r': 1, 'u': 1, 't': 0}]},
     # regression: a counter announced as 0 is a value like any other (first report and drop to 0), every carrier
     'C19/user-view:stats:zero-is-a-value': {
         'blocked': [0, 0, 0], 'ops': [
